@@ -380,6 +380,8 @@ def _anyall(ex, args, node, is_any):
                 'iteration over a non-pair')
       it = VTuple([dyn.VScalar(dyn.Dyn.fst(it.t)),
                    dyn.VScalar(dyn.Dyn.snd(it.t))])
+    if getattr(it, 'map_keys', None) is not None:
+      it = VTuple(list(it.map_keys))       # iterating a dict literal: keys
     if isinstance(it, VTuple):
       terms = []
       for item in it.items:
